@@ -223,6 +223,12 @@ func cAgedCache(t *testing.T, dir string) MemCache {
 			}
 		}
 	}
+	// ... and exporters that have gone away since: nobody refreshes their templates
+	for x := 1; x <= 6; x++ {
+		for id := 300; id < 312; id++ {
+			NewDecoder(net.IP{172, 31, 0, byte(x)}, cTplMsg(id, 50)).Decode(c)
+		}
+	}
 	file := filepath.Join(dir, "aged.json")
 	if err := c.Dump(file); err != nil {
 		t.Fatalf("driver: %v", err)
@@ -231,7 +237,7 @@ func cAgedCache(t *testing.T, dir string) MemCache {
 	if err != nil {
 		t.Fatalf("driver: %v", err)
 	}
-	old := fmt.Sprintf(`"Timestamp":%d`, time.Now().Unix()-3600)
+	old := fmt.Sprintf(`"Timestamp":%d`, time.Now().Unix()-int64(cEnvInt("VERIF_AGE_S", 3600)))
 	b = regexp.MustCompile(`"Timestamp":\d+`).ReplaceAll(b, []byte(old))
 	if err := ioutil.WriteFile(file, b, 0644); err != nil {
 		t.Fatalf("driver: %v", err)
